@@ -21,7 +21,9 @@ ResOK(r, in, rs, rl) ==
   LET accN(n) == (rs.e = "" /\ rs.n = n) \/ (rl.e = "" /\ rl.n = n)
       rej     == rs.e # "" \/ rl.e # ""
       causes  == {rs.e, rl.e} \ {""}
-  IN CASE Prop = "C02" -> (rs.e = "" /\ rl.e = "") => (r.ok /\ ~r.panic /\ r.n = rs.n /\ r.ret /\ r.used = rs.n)
+  IN CASE Prop = "C02" -> (rs.e = "" /\ rl.e = "") => (r.ok /\ ~r.panic /\ r.n = rs.n /\ r.ret /\ r.used = rs.n /\ ~r.over)
+                          \* (over: the source was asked for more after the value's last byte had been handed out --
+                          \*  "exactly the value's bytes are consumed": on a live connection such a request blocks)
        [] Prop = "C08" -> /\ ~r.panic /\ (r.ok => accN(r.n)) /\ (~r.ok => rej)
                           /\ (r.giant => causes # {"neg"})   \* a negative size is rejected, never acted upon
        [] Prop = "C03" -> ~r.panic /\ (r.ok => (0 <= r.n /\ r.n <= in.len))
